@@ -10,7 +10,7 @@ package centrifuge
 // inert and poll responses are injected by calling the real applyRefreshResponse directly (`resp`),
 // which is how stale / in-flight responses racing with SharedPollPublish are expressed sequentially.
 //
-//   reset mode=v|l keep=0|1                     versioned / versionless, KeepLatestData
+//   reset mode=v|l keep=0|1 shut=0|1            versioned / versionless, KeepLatestData, immediate channel shutdown
 //   sub c delta=0|1                             connection c subscribes (fossil delta negotiated or not)
 //   trk c k v                                   connection c tracks key k holding version v
 //   utk c k                                     untrack
@@ -198,6 +198,11 @@ func (s *verifC25Scn) drain(c *verifC25Conn) string {
 		}
 		b := verifC25Raw(c, p.Data)
 		kind := "F"
+		if !c.delta && len(p.Data) > 0 && p.Data[0] == '"' {
+			// a subscription that did not negotiate delta must get the payload as is, not JSON-string-escaped
+			out = append(out, fmt.Sprintf("%s%s=%d:F:!escaped", prefix, p.Key, p.Version))
+			return
+		}
 		if p.Delta {
 			kind = "D"
 			base, ok := c.held[p.Key]
@@ -337,9 +342,9 @@ func (s *verifC25Scn) op(f []string) (res string) {
 			return "harness-error conn"
 		}
 		req := &protocol.SubscribeRequest{Channel: verifC25Ch, Type: int32(SubscriptionTypeSharedPoll)}
-		if f[2] == "delta=1" {
+		c.delta = f[2] == "delta=1"
+		if c.delta {
 			req.Delta = "fossil"
-			c.delta = true
 		}
 		c.cmdID++
 		c.client.HandleCommand(&protocol.Command{Id: c.cmdID, Subscribe: req}, 0)
@@ -551,6 +556,9 @@ func verifC25RunScenario(t *testing.T, lines []string) (out []string) {
 		}
 		opts := SharedPollChannelOptions{Mode: mode, RefreshInterval: 1000 * time.Hour, RefreshBatchSize: 100, MaxKeysPerConnection: 100,
 			KeepLatestData: kv["keep"] == "1", ChannelShutdownDelay: 1000 * time.Hour}
+		if kv["shut"] == "1" {
+			opts.ChannelShutdownDelay = -1 // the channel state and keyed hub go as soon as the last key goes
+		}
 		s := &verifC25Scn{conns: map[string]*verifC25Conn{}}
 		node, err := New(Config{LogLevel: LogLevelNone, SharedPoll: SharedPollConfig{
 			GetSharedPollChannelOptions: func(string) (SharedPollChannelOptions, bool) { return opts, true }},
